@@ -653,7 +653,16 @@ COLORS = {'red': ['#f00', '#ff0000', 'rgb(255,0,0)', 'rgb(100%,0%,0%)', '#FF0000
           '#123456': ['rgb(18,52,86)'],
           'black': ['#000', '#000000', 'rgb(0,0,0)'],
           'white': ['#fff', 'rgb(255,255,255)'],
-          '#808080': ['gray', 'grey', 'rgb(128,128,128)']}
+          '#808080': ['gray', 'grey', 'rgb(128,128,128)'],
+          # colours that carry alpha (equivalences measured on the unchanged tree: the alpha byte is truncated, so
+          # rgba(..,0.5) is 127/255 and NOT #..80)
+          'rgba(255,0,0,0.5)': ['rgba(100%,0%,0%,0.5)', 'hsla(0,100%,50%,0.5)', 'rgba(255, 0, 0, 0.5)'],
+          '#0000ff44': ['#00f4', '#0000FF44'],
+          '#00800040': ['#00800040'],
+          'transparent': ['rgba(0,0,0,0)', '#0000', '#00000000', 'hsla(0,0%,0%,0)']}
+ALPHA_COLORS = ['rgba(255,0,0,0.5)', '#0000ff44', '#00800040', 'transparent']
+# (opacity property, colour property it multiplies with)
+OPACITY_OF = {'stop-opacity': 'stop-color', 'flood-opacity': 'flood-color', 'fill-opacity': 'fill', 'stroke-opacity': 'stroke'}
 COLOR_LIST = list(COLORS.keys())
 PAINTS = COLOR_LIST + ['none', 'url(#lg1)', 'currentColor']
 OPAC = ['0', '0.25', '0.5', '1']
@@ -863,6 +872,11 @@ class Oracle:
         for ident, p, v in PINNED:
             if rng.below(5) > 0:
                 by_id(root, ident).decls.append(self.new_decl(p, v))
+        for ident, p in (('s1', 'stop-color'), ('s2', 'stop-color'), ('ff', 'flood-color'), ('p1', 'fill'), ('l1', 'stroke'),
+                         ('t1', 'fill')):
+            e = by_id(root, ident)
+            if rng.below(3) == 0 and e.winner(p) is None:
+                e.decls.append(self.new_decl(p, rng.choice(ALPHA_COLORS)))
         for e in els(root):
             k = rng.choice([0, 0, 1, 1, 2, 3, 5])
             for _ in range(k):
@@ -903,6 +917,16 @@ class Oracle:
                 w = ws[0]
                 if w['where'] == 'attr' and (w['imp'] or not self.attr_ok(p, w['v'])):
                     return False
+                # preconditions of the no-op rewrites must still hold after later rewrites touched the ancestors
+                if w.get('kind') == 'default' and p not in SPEC_NONINHERITED and any(a.winner(p) is not None for a in e.ancestors()):
+                    return False
+                if w.get('kind') == 'inherit':
+                    src = self.inherit_source(e, p)
+                    if p in SPEC_NONINHERITED:
+                        if w['cv'] != (src['cv'] if src is not None else None):
+                            return False
+                    elif src is not None and (context_dependent(p, src['v']) or src['v'] == 'inherit' or src['cv'] is None):
+                        return False
                 seen = set()
                 for d in ds:
                     key = (d['where'], d['sel'], d['sheet']) if d['where'] == 'css' else d['where']
@@ -1098,6 +1122,7 @@ class Oracle:
                 if src is None and p == 'overflow' and e.tag in OVERFLOW_UA_HIDDEN:
                     continue
             d = self.new_decl(p, 'inherit', cv=cv)
+            d['kind'] = 'inherit'
             d['where'] = rng.choice(['attr', 'style', 'css']) if self.attr_ok(p, 'inherit') else rng.choice(['style', 'css'])
             d['sel'] = rng.choice(['id', 'class'])
             d['imp'] = d['where'] != 'attr' and rng.below(4) == 0
@@ -1107,20 +1132,37 @@ class Oracle:
 
     def rw_default(self, root):
         rng = self.rng
+        # half of the time: the default of an opacity property on an element whose own colour carries alpha
+        # (stop-opacity next to stop-color: rgba(), fill-opacity next to fill: #rrggbbaa, ...)
+        directed = []
+        if rng.below(2):
+            for e in els(root):
+                for po, pc in OPACITY_OF.items():
+                    w = e.winner(pc)
+                    if w is not None and w['cv'] in ALPHA_COLORS and not any(d['p'] == po for d in e.decls):
+                        directed.append((e, po))
         for _ in range(20):
             e = rng.choice(list(els(root)))
             p = rng.choice(sorted(SPEC_INITIAL))
+            if directed:
+                e, p = rng.choice(directed)
+                directed = []
             if any(d['p'] == p for d in e.decls):
                 continue
             if p not in SPEC_NONINHERITED and any(a.winner(p) is not None for a in e.ancestors()):
                 continue
             if p == 'overflow' and e.tag in OVERFLOW_UA_HIDDEN:
                 continue
-            d = self.new_decl(p, SPEC_INITIAL[p], cv=None)
+            v = SPEC_INITIAL[p]
+            if v == '1' and p.endswith('opacity') and rng.below(2):
+                v = rng.choice(['1.0', '100%', '1e0'])
+            d = self.new_decl(p, v, cv=None)
             d['where'] = rng.choice(['attr', 'style', 'css'])
             d['sel'] = rng.choice(['id', 'class'])
+            d['kind'] = 'default'
             e.decls.append(d)
-            return 'default'
+            return 'default' + ('-opacity-on-alpha-colour' if p in OPACITY_OF and e.winner(OPACITY_OF[p]) is not None
+                                and e.winner(OPACITY_OF[p])['cv'] in ALPHA_COLORS else '')
         return None
 
     def rw_ignored_attr(self, root):
@@ -1382,6 +1424,49 @@ def known_scenarios(orc, dpi):
     return out
 
 
+def inherit_triples(orc, rng, n_per_prop):
+    """For every inherited property alone: (a) value on the element, (b) `inherit` on the element + value on the parent,
+    (c) value only on an ancestor 1-3 levels up; the element is the only leaf of a chain g > g > g.  -> (canon, variant, tag)"""
+    out = []
+    defs = ('<defs><marker id="m1" markerWidth="6" markerHeight="6" refX="3" refY="3"><circle cx="3" cy="3" r="2"/></marker>'
+            '<linearGradient id="lg1"><stop offset="0" stop-color="red"/><stop offset="1" stop-color="blue"/></linearGradient></defs>')
+    leaves = {'path': '<path id="e"%s d="M 20 20 L 120 30 L 70 120 L 40 60"/>',
+              'polyline': '<polyline id="e"%s points="20,150 60,170 100,150 140,180"/>',
+              'text': '<text id="e"%s x="20" y="100">Text</text>',
+              'image': '<image id="e"%s x="20" y="20" width="40" height="40" xlink:href="' + PNG + '"/>'}
+    props = [p for p in INHERIT_PROPS if p not in SPEC_NONINHERITED and p not in orc.T.style_only]
+    for p in props:
+        for _ in range(n_per_prop):
+            vals = [v for v in orc.pool(p) if v not in ('inherit',)]
+            v = rng.choice(vals)
+            if p.startswith('marker-'):
+                v = 'url(#m1)'
+            kind = rng.choice(['path', 'polyline'] if (p.startswith('marker') or p.startswith('stroke') or p in ('fill-rule', 'shape-rendering'))
+                              else ['text'] if (p.startswith('font') or p.startswith('text') or p in ('letter-spacing', 'word-spacing', 'writing-mode', 'direction'))
+                              else ['image'] if p == 'image-rendering' else ['path', 'polyline', 'text'])
+            other = ' stroke="black"' if p not in ('stroke',) else ''
+            if p == 'color':
+                other += ' fill="currentColor"'
+            if p == 'clip-rule':
+                continue
+
+            def doc(on_leaf, on_g):
+                # on_g: dict level (0 = outermost g) -> attribute text
+                leaf = leaves[kind] % (other + on_leaf)
+                inner = leaf
+                for lvl in (2, 1, 0):
+                    inner = '<g id="g%d"%s>%s</g>' % (lvl, on_g.get(lvl, ''), inner)
+                return '<svg %s width="200" height="200">%s%s</svg>' % (NS, defs, inner)
+            decl = ' %s="%s"' % (p, v)
+            a = doc(decl, {})
+            lvl = rng.below(3)
+            out.append((a, doc('', {lvl: decl}), 'inherit-triple-ancestor-%d' % (3 - lvl)))
+            if p in orc.T.allows_inherit and not context_dependent(p, v):
+                out.append((a, doc(' %s="inherit"' % p, {2: decl}), 'inherit-triple-keyword'))
+                out.append((a, doc(' style="%s:inherit"' % p, {rng.below(3): decl}), 'inherit-triple-keyword-style'))
+    return out
+
+
 def run_spelling(ctx, binp, T, n_base, n_comp, search=False):
     rng = ctx.rng
     orc = Oracle(T, rng)
@@ -1399,6 +1484,8 @@ def run_spelling(ctx, binp, T, n_base, n_comp, search=False):
             cd, _ = orc.render(v, True)
             vd, inj = orc.render(v, False)
             pairs.append((dpi, cd, vd, inj, applied, None))
+    for cd, vd, tag in inherit_triples(orc, rng, 1 if n_base <= 70 else 4):
+        pairs.append((96, cd, vd, None, [tag], None))
     for _ in range(max(2, n_base // 4)):
         dpi = rng.choice([72, 96, 300])
         for cls, root, desc in known_scenarios(orc, dpi):
@@ -1594,8 +1681,8 @@ def run(ctx):
         "spelling: random base documents over all presentation properties (template with gradient, clipPath, mask, two filters, "
         "marker, shapes, text, image) x {move to attribute/style/CSS by id/class/type, !important, universal and type-wide rules, "
         "injected sheet, shadowed lower-precedence declarations, piles of 3-5 declarations around an (important) winner, explicit inherit (parent / ancestor / default), explicit default, "
-        "equivalent units at dpi 72/96/300, colour and number notation, attribute order} singly and in random compositions of 2-6; "
-        "distinct by document text.")
+        "equivalent units at dpi 72/96/300, colour (incl. alpha: rgba(), #rrggbbaa, #rgba, hsla(), transparent) and number notation, attribute order; explicit opacity defaults next to alpha colours} singly and in random compositions of 2-6; "
+        "plus, for every inherited property alone on a g>g>g>leaf chain: value on the element vs `inherit` + value on the parent vs value only on an ancestor 1-3 levels up; distinct by document text.")
 
 
 def replay(ctx, path):
